@@ -1,3 +1,231 @@
 //go:build verif
 
 package core
+
+// Simulation harness for C27: K test tasks report coverage through the real
+// BuildState.LogTestResult in a scheduler-chosen completion order.
+
+import (
+	"encoding/json"
+	"fmt"
+	"os"
+	"sort"
+	"strings"
+	"testing"
+	"testing/synctest"
+	"time"
+
+	"github.com/thought-machine/please/src/verifsim"
+)
+
+type vrRun struct {
+	Seed   uint64          `json:"seed"`
+	Start  int             `json:"start"`
+	Count  int             `json:"count"`
+	Out    string          `json:"out"`
+	Replay json.RawMessage `json:"replay"`
+}
+
+type vrParams struct {
+	Seed    uint64                `json:"seed"`
+	Tests   []map[string][]uint8  `json:"tests"` // per test: file -> line states
+	Dup     int                   `json:"dup"`   // index of the result that is delivered twice (-1 none)
+	Orders  int                   `json:"orders"`
+	Choices []int                 `json:"choices"`
+}
+
+type vrResult struct {
+	Index     int               `json:"index"`
+	Seed      uint64            `json:"seed"`
+	Params    vrParams          `json:"params"`
+	Evals     int               `json:"evals"`
+	Distinct  []string          `json:"distinct"` // distinct completion orders observed
+	Violation *vrViolation      `json:"violation,omitempty"`
+	Stats     map[string]int64  `json:"stats"`
+}
+
+type vrViolation struct {
+	Class  string `json:"class"`
+	Detail string `json:"detail"`
+}
+
+func genVR(seed uint64) vrParams {
+	r := verifsim.NewRand(verifsim.SubSeed(seed, "c27"))
+	p := vrParams{Seed: seed, Dup: -1}
+	k := 2 + r.Intn(5)
+	files := []string{"a.go", "b.go", "pkg/c.go"}
+	for i := 0; i < k; i++ {
+		t := map[string][]uint8{}
+		nf := 1 + r.Intn(len(files))
+		for j := 0; j < nf; j++ {
+			f := files[r.Intn(len(files))]
+			n := r.Intn(9)
+			lines := make([]uint8, n)
+			for l := range lines {
+				lines[l] = uint8(r.Intn(4))
+			}
+			t[f] = lines
+		}
+		p.Tests = append(p.Tests, t)
+	}
+	if r.Intn(2) == 0 {
+		p.Dup = r.Intn(k)
+	}
+	p.Orders = 6
+	return p
+}
+
+func vrExpected(p vrParams) map[string][]uint8 {
+	exp := map[string][]uint8{}
+	for _, t := range p.Tests {
+		for f, lines := range t {
+			cur := exp[f]
+			for i, l := range lines {
+				if i >= len(cur) {
+					cur = append(cur, l)
+				} else if l > cur[i] {
+					cur[i] = l
+				}
+			}
+			if cur == nil {
+				cur = []uint8{}
+			}
+			exp[f] = cur
+		}
+	}
+	return exp
+}
+
+func vrRender(m map[string][]uint8) string {
+	var keys []string
+	for k := range m {
+		keys = append(keys, k)
+	}
+	sort.Strings(keys)
+	var sb strings.Builder
+	for _, k := range keys {
+		fmt.Fprintf(&sb, "%s=%v;", k, m[k])
+	}
+	return sb.String()
+}
+
+func scenarioVR(t *testing.T, seed uint64, replay *vrParams) vrResult {
+	p := genVR(seed)
+	if replay != nil {
+		p = *replay
+	}
+	res := vrResult{Seed: seed, Params: p, Stats: map[string]int64{}}
+	want := vrRender(vrExpected(p))
+	orders := map[string]bool{}
+	runs := p.Orders
+	if len(p.Choices) > 0 {
+		runs = 1
+	}
+	for o := 0; o < runs && res.Violation == nil; o++ {
+		var got string
+		var order []string
+		var choices []int
+		func() {
+			defer func() {
+				if r := recover(); r != nil && !strings.Contains(fmt.Sprint(r), "deadlock") && !strings.Contains(fmt.Sprint(r), "blocked") {
+					panic(r)
+				}
+			}()
+			synctest.Test(t, func(t *testing.T) {
+				verifsim.Enable()
+				var ch []int
+				if len(p.Choices) > 0 {
+					ch = p.Choices
+				}
+				s := verifsim.NewScheduler(verifsim.Config{Seed: verifsim.SubSeed(seed, fmt.Sprintf("order%d", o)), Policy: "random", Choices: ch, MaxSteps: 100000, MaxSimTime: time.Hour, Record: true, SoftHang: true, MaxIdle: 3 * time.Second})
+				state := NewDefaultBuildState()
+				state.NeedCoverage = true
+				var tasks []verifsim.TaskSpec
+				deliver := func(i int, tag string) verifsim.TaskSpec {
+					return verifsim.TaskSpec{ID: fmt.Sprintf("t%d%s", i, tag), Fn: func() {
+						target := NewBuildTarget(ParseBuildLabel(fmt.Sprintf("//pkg:test%d", i), ""))
+						cov := NewTestCoverage()
+						for f, lines := range p.Tests[i] {
+							lc := make([]LineCoverage, len(lines))
+							for j, l := range lines {
+								lc[j] = LineCoverage(l)
+							}
+							cov.Files[f] = lc
+						}
+						verifsim.Yield("finish")
+						order = append(order, fmt.Sprintf("%d%s", i, tag))
+						state.LogTestResult(target, 1, TargetTested, &TestSuite{}, cov, nil, "Tests passed")
+					}}
+				}
+				for i := range p.Tests {
+					tasks = append(tasks, deliver(i, ""))
+				}
+				if p.Dup >= 0 {
+					tasks = append(tasks, deliver(p.Dup, "dup"))
+				}
+				s.RunTasks(tasks)
+				choices = s.Recorded()
+				res.Stats["sched_steps"] += int64(s.Steps)
+				gm := map[string][]uint8{}
+				for f, lines := range state.Coverage.Files {
+					ls := make([]uint8, len(lines))
+					for j, l := range lines {
+						ls[j] = uint8(l)
+					}
+					gm[f] = ls
+				}
+				got = vrRender(gm)
+			})
+		}()
+		res.Evals++
+		orders[strings.Join(order, ",")] = true
+		if got != want {
+			q := p
+			q.Choices = choices
+			res.Params = q
+			res.Violation = &vrViolation{"coverage-depends-on-order", fmt.Sprintf("completion order %v gave aggregate %s, the point-wise best is %s", order, got, want)}
+		}
+	}
+	for o := range orders {
+		res.Distinct = append(res.Distinct, o)
+	}
+	sort.Strings(res.Distinct)
+	return res
+}
+
+func TestVerifCore(t *testing.T) {
+	path := os.Getenv("VERIF_RUN")
+	if path == "" {
+		t.Skip("VERIF_RUN not set")
+	}
+	data, err := os.ReadFile(path)
+	if err != nil {
+		panic(err)
+	}
+	var run vrRun
+	if err := json.Unmarshal(data, &run); err != nil {
+		panic(err)
+	}
+	out, err := os.OpenFile(run.Out, os.O_WRONLY|os.O_CREATE|os.O_TRUNC, 0o644)
+	if err != nil {
+		panic(err)
+	}
+	enc := json.NewEncoder(out)
+	for i := run.Start; i < run.Start+run.Count; i++ {
+		seed := verifsim.SubSeed(run.Seed, fmt.Sprintf("c27/%d", i))
+		var rp *vrParams
+		if len(run.Replay) > 0 {
+			rp = &vrParams{}
+			if err := json.Unmarshal(run.Replay, rp); err != nil {
+				panic(err)
+			}
+		}
+		res := scenarioVR(t, seed, rp)
+		res.Index = i
+		if err := enc.Encode(res); err != nil {
+			panic(err)
+		}
+	}
+	out.Close()
+	os.Exit(0)
+}
